@@ -351,8 +351,50 @@ Definition frame_d (off : N) (epoch prev payload : bytes) : bytes :=
       (dec (N.of_nat (length prev)) ++ 58 :: (prev ++ 58 ::
         (dec (N.of_nat (length payload)) ++ 58 :: payload))))).
 
+Lemma size_le_53 : forall n, n < 2 ^ 53 -> (N.size n <=? 53) = true.
+Proof.
+  intros n H. apply N.leb_le. destruct (N.le_gt_cases (N.size n) 53) as [L|G]; [exact L|exfalso].
+  assert (L54 : 54 <= N.size n) by lia.
+  pose proof (N.pow_le_mono_r 2 54 (N.size n) ltac:(discriminate) L54) as P.
+  pose proof (N.size_le n) as S. rewrite N.succ_double_spec in S.
+  change (2 ^ 54) with 18014398509481984 in P. change (2 ^ 53) with 9007199254740992 in H. lia.
+Qed.
+
+Lemma round53_small : forall n, n < 2 ^ 53 -> round53 n = n.
+Proof. intros n H. unfold round53. now rewrite (size_le_53 n H). Qed.
+
+Lemma round53_large : forall n, LUA_PLAIN <= n -> LUA_PLAIN <= round53 n.
+Proof.
+  intros n H. unfold round53.
+  destruct (N.size n <=? 53) eqn:E; [exact H|].
+  apply N.leb_gt in E.
+  set (sh := N.size n - 53). assert (Hb : N.size n = sh + 53) by (unfold sh; lia).
+  assert (Hsh : 1 <= sh) by lia.
+  rewrite N.shiftr_div_pow2, !N.shiftl_mul_pow2.
+  set (P := 2 ^ sh).
+  assert (HP : 2 <= P).
+  { unfold P. change 2 with (2 ^ 1) at 1. apply N.pow_le_mono_r; [discriminate|exact Hsh]. }
+  pose proof (N.size_le n) as S. rewrite N.succ_double_spec, Hb, N.pow_add_r in S. fold P in S.
+  change (2 ^ 53) with 9007199254740992 in S.
+  assert (Hq : 4503599627370496 <= n / P).
+  { apply N.div_le_lower_bound; lia. }
+  set (q := n / P) in *.
+  assert (Hq' : q <= (if 1 * 2 ^ (sh - 1) <? n - q * P then q + 1
+                      else if (n - q * P =? 1 * 2 ^ (sh - 1)) && N.odd q then q + 1 else q)).
+  { destruct (_ <? _); [lia|]. destruct (_ && _); lia. }
+  set (q' := if 1 * 2 ^ (sh - 1) <? n - q * P then q + 1
+             else if (n - q * P =? 1 * 2 ^ (sh - 1)) && N.odd q then q + 1 else q) in *.
+  unfold LUA_PLAIN. change (10 ^ 14) with 100000000000000. nia.
+Qed.
+
 Lemma lua_num_small : forall n, n < LUA_PLAIN -> lua_num n = Some (dec n).
-Proof. intros n H. unfold lua_num. now replace (n <? LUA_PLAIN) with true by lia. Qed.
+Proof.
+  intros n H. unfold lua_num, lua_fmt.
+  assert (H53 : n < 2 ^ 53).
+  { unfold LUA_PLAIN in H. change (10 ^ 14) with 100000000000000 in H.
+    change (2 ^ 53) with 9007199254740992. lia. }
+  rewrite (round53_small n H53). now replace (n <? LUA_PLAIN) with true by lia.
+Qed.
 
 Lemma eval_plain : forall tpl off epoch prev payload,
   tpl = lua_stream_plain \/ tpl = lua_list_plain ->
@@ -675,4 +717,247 @@ Proof.
   intros off epoch prev payload Ho Hp Hl.
   split; [apply eval_plain; auto|]. split; [apply eval_plain; auto|].
   split; apply eval_delta; auto.
+Qed.
+
+(* ---------- offsets that Lua prints in exponent form (>= 10^14) ---------- *)
+
+Lemma dec_fuel_digits : forall fuel n acc,
+  all_digits acc = true -> all_digits (dec_fuel fuel n acc) = true.
+Proof.
+  induction fuel as [|k IH]; intros n acc H; cbn [dec_fuel]; [exact H|].
+  assert (Hacc : all_digits ((48 + n mod 10) :: acc) = true).
+  { cbn [all_digits forallb]. fold (all_digits acc). rewrite H, andb_true_r.
+    unfold is_digit. pose proof (N.mod_lt n 10 ltac:(discriminate)) as Hm.
+    generalize dependent (n mod 10). intros m Hm.
+    apply andb_true_iff. split; apply N.leb_le; lia. }
+  destruct (n <? 10); [exact Hacc | now apply IH].
+Qed.
+
+Lemma dec_fuel_nonempty : forall fuel n acc, (fuel > 0)%nat -> dec_fuel fuel n acc <> [].
+Proof.
+  induction fuel as [|k IH]; intros n acc H; [lia|]. cbn [dec_fuel].
+  destruct (n <? 10); [discriminate|].
+  destruct k; [cbn; discriminate|]. apply IH. lia.
+Qed.
+
+Lemma dec_digits : forall n, all_digits (dec n) = true.
+Proof. intros. now apply dec_fuel_digits. Qed.
+Lemma dec_nonempty : forall n, dec n <> [].
+Proof. intros. apply dec_fuel_nonempty. lia. Qed.
+
+(* the characters "%.14g" can produce for a non-negative integer *)
+Definition fmt_char (c : N) : bool := is_digit c || (c =? 46) || (c =? 101) || (c =? 43).
+
+Lemma digits_fmt : forall s, all_digits s = true -> forallb fmt_char s = true.
+Proof.
+  induction s as [|c s IH]; intros H; [reflexivity|].
+  cbn [all_digits forallb] in *. apply andb_true_iff in H. destruct H as [H1 H2].
+  unfold fmt_char at 1. rewrite H1. cbn [orb]. now apply IH.
+Qed.
+
+Lemma In_drop_zeros : forall s x, In x (drop_zeros s) -> In x s.
+Proof.
+  induction s as [|c s IH]; intros x H; [exact H|]. cbn [drop_zeros] in H.
+  destruct (c =? 48); [right; now apply IH | exact H].
+Qed.
+
+Lemma In_strip : forall s x, In x (strip_trailing_zeros s) -> In x s.
+Proof.
+  intros s x H. unfold strip_trailing_zeros in H. apply in_rev in H.
+  apply In_drop_zeros in H. now apply in_rev.
+Qed.
+
+Lemma lua_fmt_chars : forall n, forallb fmt_char (lua_fmt n) = true.
+Proof.
+  intros n0. unfold lua_fmt. set (n := round53 n0).
+  destruct (n <? LUA_PLAIN); [apply digits_fmt, dec_digits|].
+  set (d := length (dec n)). set (p := pow10 (d - 14)).
+  set (m0 := if (p / 2 <? n mod p) || ((n mod p =? p / 2) && N.odd (n / p)) then n / p + 1 else n / p).
+  destruct (if m0 =? 10 ^ 14 then (10 ^ 13, d) else (m0, (d - 1)%nat)) as [m e].
+  pose proof (dec_digits m) as Dm.
+  destruct (dec m) as [|d0 ds]; [reflexivity|].
+  cbn [all_digits forallb] in Dm. apply andb_true_iff in Dm. destruct Dm as [D0 Ds].
+  cbn [forallb]. unfold fmt_char at 1. rewrite D0. cbn [orb andb].
+  rewrite !forallb_app. apply andb_true_iff. split; [|apply andb_true_iff; split].
+  - assert (F : forallb fmt_char (strip_trailing_zeros ds) = true).
+    { apply forallb_forall. intros x Hx. apply In_strip in Hx.
+      pose proof (proj1 (forallb_forall _ _) Ds x Hx) as Hd. unfold fmt_char. now rewrite Hd. }
+    destruct (strip_trailing_zeros ds) as [|y fr]; [reflexivity|].
+    change (forallb fmt_char (46 :: y :: fr)) with (fmt_char 46 && forallb fmt_char (y :: fr)).
+    now rewrite F.
+  - reflexivity.
+  - unfold dec2. destruct (Nat.ltb e 10).
+    + cbn [forallb]. rewrite (digits_fmt _ (dec_digits _)). reflexivity.
+    + apply digits_fmt, dec_digits.
+Qed.
+
+Lemma lua_fmt_large_e : forall n, LUA_PLAIN <= n -> In 101 (lua_fmt n).
+Proof.
+  intros n0 H. unfold lua_fmt. pose proof (round53_large n0 H) as HL. set (n := round53 n0) in *.
+  replace (n <? LUA_PLAIN) with false by lia.
+  set (d := length (dec n)). set (p := pow10 (d - 14)).
+  set (m0 := if (p / 2 <? n mod p) || ((n mod p =? p / 2) && N.odd (n / p)) then n / p + 1 else n / p).
+  destruct (if m0 =? 10 ^ 14 then (10 ^ 13, d) else (m0, (d - 1)%nat)) as [m e].
+  pose proof (dec_nonempty m) as Nm.
+  destruct (dec m) as [|d0 ds]; [congruence|].
+  right. apply in_or_app. right. left. reflexivity.
+Qed.
+
+Lemma lua_fmt_nonempty : forall n, lua_fmt n <> [].
+Proof.
+  intros n0. unfold lua_fmt. set (n := round53 n0).
+  destruct (n <? LUA_PLAIN); [apply dec_nonempty|].
+  set (d := length (dec n)). set (p := pow10 (d - 14)).
+  set (m0 := if (p / 2 <? n mod p) || ((n mod p =? p / 2) && N.odd (n / p)) then n / p + 1 else n / p).
+  destruct (if m0 =? 10 ^ 14 then (10 ^ 13, d) else (m0, (d - 1)%nat)) as [m e].
+  pose proof (dec_nonempty m) as Nm.
+  destruct (dec m) as [|d0 ds]; [congruence|discriminate].
+Qed.
+
+Lemma fmt_free : forall s, forallb fmt_char s = true -> free_of 58 s = true /\ free_of 95 s = true.
+Proof.
+  induction s as [|c s IH]; intros H; [split; reflexivity|].
+  cbn [forallb] in H. apply andb_true_iff in H. destruct H as [H1 H2].
+  destruct (IH H2) as [A B]. unfold free_of in *. cbn [forallb]. rewrite A, B, !andb_true_r.
+  unfold fmt_char, is_digit in H1.
+  split; apply negb_true_iff; apply N.eqb_neq; intros ->; cbn in H1; discriminate.
+Qed.
+
+Lemma parse_uint_loop_nondigit : forall c s n,
+  In c s -> is_digit c = false -> snd (parse_uint_loop s n) = false.
+Proof.
+  intros c. induction s as [|x s IH]; intros n Hin Hc; [destruct Hin|].
+  cbn [parse_uint_loop]. destruct (is_digit x) eqn:Dx; [|reflexivity].
+  destruct (U64 <=? n * 10 + (x - 48)); [reflexivity|].
+  destruct Hin as [->|Hin]; [congruence|]. now apply IH.
+Qed.
+
+Lemma parse_uint_nondigit : forall c s, In c s -> is_digit c = false -> snd (parse_uint s) = false.
+Proof.
+  intros c s Hin Hc. unfold parse_uint. destruct s as [|x t]; [reflexivity|].
+  eapply parse_uint_loop_nondigit; eauto.
+Qed.
+
+(* the 'p' header for an arbitrary offset string *)
+Lemma p_header_offs : forall fixed offs epoch rest,
+  offs <> [] -> free_of 58 offs = true ->
+  p_header fixed (112 :: 49 :: 58 :: (offs ++ 58 :: epoch)) rest =
+  Ret (mkPush rest PPub (fst (parse_uint offs)) epoch false [] (snd (parse_uint offs))).
+Proof.
+  intros fixed offs epoch rest Hne F58.
+  unfold p_header.
+  remember (offs ++ 58 :: epoch) as sh eqn:Hsh.
+  replace (length ((112 :: 49 :: 58 :: sh)%N) <? 3)%nat with false by reflexivity.
+  rewrite andb_false_r.
+  assert (E1 : sl_from (112 :: 49 :: 58 :: sh) 3 = Some sh) by exact (sl_from_app [112; 49; 58] sh).
+  rewrite E1.
+  assert (E2 : index_byte 58 sh = Some (length offs)).
+  { subst sh. now apply index_byte_app. }
+  rewrite E2.
+  destruct (length offs) as [|k] eqn:EL.
+  { destruct offs; [congruence|discriminate]. }
+  assert (E3 : sl_to sh (Z.of_nat (S k)) = Some offs).
+  { subst sh. rewrite <- EL. apply sl_to_app. }
+  assert (E4 : sl_from sh (Z.of_nat (S k) + 1) = Some epoch).
+  { subst sh. rewrite <- EL. apply sl_from_app1. }
+  rewrite E3, E4. destruct (parse_uint offs). reflexivity.
+Qed.
+
+Definition frame_p_s (offs epoch payload : bytes) : bytes :=
+  95 :: 95 :: 112 :: 49 :: 58 :: (offs ++ 58 :: (epoch ++ 95 :: 95 :: payload)).
+Definition frame_d_s (offs epoch prev payload : bytes) : bytes :=
+  95 :: 95 :: 100 :: 49 :: 58 ::
+    (offs ++ 58 :: (epoch ++ 58 ::
+      (dec (N.of_nat (length prev)) ++ 58 :: (prev ++ 58 ::
+        (dec (N.of_nat (length payload)) ++ 58 :: payload))))).
+
+Lemma eval_plain_s : forall tpl off epoch prev payload,
+  tpl = lua_stream_plain \/ tpl = lua_list_plain ->
+  eval_tpl (mkEnv off epoch prev payload) tpl = Some (frame_p_s (lua_fmt off) epoch payload).
+Proof.
+  intros tpl off epoch prev payload [-> | ->];
+    cbn [eval_tpl lua_stream_plain lua_list_plain eval_tok e_off e_epoch e_payload lua_num];
+    cbn [app]; unfold frame_p_s; rewrite ?app_nil_r, <- ?app_assoc; reflexivity.
+Qed.
+
+Lemma eval_delta_s : forall tpl off epoch prev payload,
+  tpl = lua_stream_delta \/ tpl = lua_list_delta ->
+  N.of_nat (length prev) < LUA_PLAIN -> N.of_nat (length payload) < LUA_PLAIN ->
+  eval_tpl (mkEnv off epoch prev payload) tpl = Some (frame_d_s (lua_fmt off) epoch prev payload).
+Proof.
+  intros tpl off epoch prev payload [-> | ->] Hp Hl;
+    cbn [eval_tpl lua_stream_delta lua_list_delta eval_tok e_off e_epoch e_payload e_prev];
+    rewrite (lua_num_small _ Hp), (lua_num_small _ Hl); cbn [lua_num app]; unfold frame_d_s;
+    rewrite ?app_nil_r, <- ?app_assoc; cbn [app]; reflexivity.
+Qed.
+
+Lemma extract_frame_p_s : forall fixed offs epoch payload,
+  offs <> [] -> free_of 58 offs = true -> free_of 95 offs = true -> hdr_ok epoch = true ->
+  extract fixed (frame_p_s offs epoch payload) =
+  Ret (mkPush payload PPub (fst (parse_uint offs)) epoch false [] (snd (parse_uint offs))).
+Proof.
+  intros fixed offs epoch payload Hne F58 F95 He.
+  assert (Sh : frame_p_s offs epoch payload =
+               95 :: 95 :: 112 :: ((49 :: 58 :: (offs ++ 58 :: epoch)) ++ 95 :: 95 :: payload)).
+  { unfold frame_p_s. cbn [app]. now rewrite <- app_assoc. }
+  rewrite Sh, extract_p_frame.
+  - now apply p_header_offs.
+  - change (112 :: 49 :: 58 :: (offs ++ 58 :: epoch)) with ([112; 49; 58] ++ (offs ++ ([58] ++ epoch))).
+    rewrite hdr_ok_app_free by reflexivity. rewrite hdr_ok_app_free by exact F95.
+    now rewrite hdr_ok_app_free by reflexivity.
+Qed.
+
+Lemma parse_delta_bad_offset : forall fixed offs rest,
+  free_of 58 offs = true -> snd (parse_uint offs) = false ->
+  parse_delta fixed (100 :: 49 :: 58 :: (offs ++ 58 :: rest)) = DErr.
+Proof.
+  intros fixed offs rest F Hbad. unfold parse_delta.
+  replace (has_pfx (100 :: 49 :: 58 :: (offs ++ 58 :: rest)) d1_prefix) with true
+    by (symmetry; exact (has_pfx_app [100; 49; 58] (offs ++ 58 :: rest))).
+  cbn [negb].
+  assert (E1 : sl_from (100 :: 49 :: 58 :: (offs ++ 58 :: rest)) 3 = Some (offs ++ 58 :: rest))
+    by exact (sl_from_app [100; 49; 58] (offs ++ 58 :: rest)).
+  rewrite E1, (index_byte_app 58 offs rest F), <- zlen_nat, sl_to_app.
+  destruct (parse_uint offs) as [v ok]. cbn [snd] in Hbad. now subst ok.
+Qed.
+
+Lemma extract_frame_d_bad_offset : forall fixed offs epoch prev payload,
+  free_of 58 offs = true -> snd (parse_uint offs) = false ->
+  extract fixed (frame_d_s offs epoch prev payload) = fail_with [].
+Proof.
+  intros fixed offs epoch prev payload F Hbad. unfold extract, frame_d_s.
+  match goal with |- context [has_pfx (95 :: 95 :: ?r) meta_sep] =>
+    replace (has_pfx (95 :: 95 :: r) meta_sep) with true by (symmetry; exact (has_pfx_app [95; 95] r));
+    assert (E1 : sl_from (95 :: 95 :: r) 2 = Some r) by exact (sl_from_app [95; 95] r) end.
+  cbn [negb]. rewrite E1. cbv beta iota.
+  replace ((100 =? 106) || (100 =? 108)) with false by reflexivity.
+  replace (100 =? 112) with false by reflexivity. replace (100 =? 100) with true by reflexivity.
+  now rewrite parse_delta_bad_offset.
+Qed.
+
+(* From offset 10^14 on the Lua builders print the offset in exponent form and the
+   receiving node rejects the message: the publication is not delivered by PUB/SUB.
+   (Unreachable in practice: 10^14 publications into one channel epoch.) *)
+Theorem lua_large_offset_rejected : forall off epoch prev payload,
+  LUA_PLAIN <= off ->
+  N.of_nat (length prev) < LUA_PLAIN -> N.of_nat (length payload) < LUA_PLAIN ->
+  hdr_ok epoch = true ->
+  (forall tpl, tpl = lua_stream_plain \/ tpl = lua_list_plain ->
+     exists b r, eval_tpl (mkEnv off epoch prev payload) tpl = Some b /\
+                 extract true b = Ret r /\ p_ok r = false) /\
+  (forall tpl, tpl = lua_stream_delta \/ tpl = lua_list_delta ->
+     exists b r, eval_tpl (mkEnv off epoch prev payload) tpl = Some b /\
+                 extract true b = Ret r /\ p_ok r = false).
+Proof.
+  intros off epoch prev payload Ho Hp Hl He.
+  pose proof (lua_fmt_chars off) as Hc. destruct (fmt_free _ Hc) as [F58 F95].
+  pose proof (lua_fmt_large_e off Ho) as Hin.
+  pose proof (parse_uint_nondigit 101 _ Hin eq_refl) as Hbad.
+  split; intros tpl Ht.
+  - eexists _, _. split; [now apply eval_plain_s|]. split.
+    + apply extract_frame_p_s; auto. apply lua_fmt_nonempty.
+    + exact Hbad.
+  - eexists _, _. split; [now apply eval_delta_s|]. split.
+    + now apply extract_frame_d_bad_offset.
+    + reflexivity.
 Qed.
